@@ -906,6 +906,16 @@ func (e *Env) trCall(n *ast.CallExpr) TV {
 	case "sameOld":
 		// sameOld(x): the backing arrays (of x's element sort) that existed at function entry are unchanged
 		v := arg(0)
+		if mt, isMap := v.Ty.Underlying().(*types.Map); isMap && e.old != nil {
+			ks, vs := e.sortOf(mt.Key()), e.sortOf(mt.Elem())
+			hn, vn := "M."+ks+"."+vs+".has", "M."+ks+"."+vs+".val"
+			hs, vso := arraySort("Int", arraySort(ks, "Bool")), arraySort("Int", arraySort(ks, vs))
+			q := Leaf("q_so_" + strconv.Itoa(e.w.fresh()))
+			rng := And(Le(IntLit(1), q), Lt(q, e.heap(e.old, "$cnt", "Int")))
+			return TV{A("forall", A("(("+q.Op+" Int))"), Implies(rng, And(
+				Eq(Select(e.heap(e.state, hn, hs), q), Select(e.heap(e.old, hn, hs), q)),
+				Eq(Select(e.heap(e.state, vn, vso), q), Select(e.heap(e.old, vn, vso), q))))), tyBool}
+		}
 		stp, ok := v.Ty.Underlying().(*types.Slice)
 		if !ok || e.old == nil {
 			e.fail("sameOld(slice) expected, in a context with an old state")
